@@ -341,7 +341,7 @@ Proof.
     apply inv_refresh. apply (update1_ok _ _ _ _ E W).
   - destruct (match sec with Some s => Ok s | None => _ end); [|split; assumption]. apply batch_inv. exact W.
   - apply options_batch_inv. exact W.
-  - destruct (parse_ini case_sensitive text); [|split; assumption].
+  - destruct (parse_ini all_off case_sensitive text); [|split; assumption].
     apply batch_inv. destruct (sget "__vars__" a); [|exact W].
     destruct (with_vars_facts c (merge_vars (c_vars c) (valued l))) as [-> _]. exact W.
   - apply inv_refresh. destruct c; exact W.
@@ -360,7 +360,7 @@ Proof.
     rewrite refresh_profiles. apply (update1_ok _ _ _ _ E W).
   - destruct (match sec with Some s => Ok s | None => _ end); [|reflexivity]. apply batch_inv. exact W.
   - apply options_batch_inv. exact W.
-  - destruct (parse_ini case_sensitive text); [|reflexivity].
+  - destruct (parse_ini all_off case_sensitive text); [|reflexivity].
     destruct (sget "__vars__" a).
     + destruct (with_vars_facts c (merge_vars (c_vars c) (valued l))) as [R [P _]].
       rewrite <- P. apply batch_inv. rewrite R. exact W.
@@ -788,7 +788,7 @@ Proof.
   { rewrite Eline. apply is_comment_other; assumption. }
   assert (Eind : indent_of (plain_line (String a kr) v) = 0).
   { unfold indent_of. rewrite Els. apply Nat.sub_diag. }
-  unfold read_line. rewrite Estrip, Ecom. rewrite Eline at 1. cbv iota. try rewrite <- Eline.
+  unfold read_line. rewrite Estrip, Ecom. cbn [andb]. rewrite Eline at 1. cbv iota. try rewrite <- Eline.
   rewrite Eind, Hs.
   assert (Enew : new_line cs st (plain_line (String a kr) v) 0 =
                  Ok (RState (sset (r_done st) sn (opts ++ [(k', Some [v])])%list) (Some sn) (Some k') 0)).
@@ -841,7 +841,7 @@ Proof.
   assert (Ecom : is_comment ("[" ++ sn ++ "]") = false) by reflexivity.
   assert (Eline : "[" ++ sn ++ "]" = String "[" (sn ++ "]")) by reflexivity.
   exists (indent_of ("[" ++ sn ++ "]")).
-  unfold read_line. cbv zeta. rewrite Estrip, Ecom. rewrite Eline at 1. cbv iota.
+  unfold read_line. cbv zeta. rewrite Estrip, Ecom. cbn [andb]. rewrite Eline at 1. cbv iota.
   assert (En : new_line cs st ("[" ++ sn ++ "]") (indent_of ("[" ++ sn ++ "]")) =
                Ok (RState (r_done st ++ [(sn, [])])%list (Some sn) None (indent_of ("[" ++ sn ++ "]")))).
   { unfold new_line. rewrite Eh, Hm. reflexivity. }
@@ -853,10 +853,10 @@ Qed.
 
 (* ================================================================== the deviations are real (computed witnesses) *)
 
-Definition q_only_stale := {| q_stale := true; q_fbsect := false; q_mkey := false; q_fmt := false; q_metanl := false; q_clear := false; q_lead := false |}.
-Definition q_only_fbsect := {| q_stale := false; q_fbsect := true; q_mkey := false; q_fmt := false; q_metanl := false; q_clear := false; q_lead := false |}.
-Definition q_only_mkey := {| q_stale := false; q_fbsect := false; q_mkey := true; q_fmt := false; q_metanl := false; q_clear := false; q_lead := false |}.
-Definition q_only_fmt := {| q_stale := false; q_fbsect := false; q_mkey := false; q_fmt := true; q_metanl := false; q_clear := false; q_lead := false |}.
+Definition q_only_stale := {| q_stale := true; q_fbsect := false; q_mkey := false; q_fmt := false; q_metanl := false; q_clear := false; q_lead := false; q_comment_cont := false |}.
+Definition q_only_fbsect := {| q_stale := false; q_fbsect := true; q_mkey := false; q_fmt := false; q_metanl := false; q_clear := false; q_lead := false; q_comment_cont := false |}.
+Definition q_only_mkey := {| q_stale := false; q_fbsect := false; q_mkey := true; q_fmt := false; q_metanl := false; q_clear := false; q_lead := false; q_comment_cont := false |}.
+Definition q_only_fmt := {| q_stale := false; q_fbsect := false; q_mkey := false; q_fmt := true; q_metanl := false; q_clear := false; q_lead := false; q_comment_cont := false |}.
 
 Definition w_stale_ops : list op :=
   [OUpdate (Upd "sa" "k1" "old" None "s" []) true; ODict (Some "sa") [("k1", "new"); ("zz", "2")] "dictionary" false].
@@ -890,7 +890,7 @@ Lemma fmt_witness :
   py_replace all_off [] None "{x:>8}" = Ok "{x:>8}".
 Proof. vm_compute. repeat split; reflexivity. Qed.
 
-Definition q_only_metanl := {| q_stale := false; q_fbsect := false; q_mkey := false; q_fmt := false; q_metanl := true; q_clear := false; q_lead := false |}.
+Definition q_only_metanl := {| q_stale := false; q_fbsect := false; q_mkey := false; q_fmt := false; q_metanl := true; q_clear := false; q_lead := false; q_comment_cont := false |}.
 
 Definition w_meta_cfg : config :=
   run all_off [OUpdate (Upd "sa" "k1" "v" None "s" [("help", Some "some words of help that do not fit on one line")]) true]
@@ -902,7 +902,7 @@ Lemma metanl_witness :
 Proof. split; [vm_compute; reflexivity|]. vm_compute. discriminate. Qed.
 
 Definition q_only_clear :=
-  {| q_stale := false; q_fbsect := false; q_mkey := false; q_fmt := false; q_metanl := false; q_clear := true; q_lead := false |}.
+  {| q_stale := false; q_fbsect := false; q_mkey := false; q_fmt := false; q_metanl := false; q_clear := true; q_lead := false; q_comment_cont := false |}.
 Definition w_clear_ops : list op :=
   [OUpdate (Upd "sa" "k1" "v" None "s" []) true; OClear; OUpdate (Upd "sb" "k2" "w" None "s" []) true].
 
@@ -964,7 +964,7 @@ Proof.
 Qed.
 
 Definition q_only_lead :=
-  {| q_stale := false; q_fbsect := false; q_mkey := false; q_fmt := false; q_metanl := false; q_clear := false; q_lead := true |}.
+  {| q_stale := false; q_fbsect := false; q_mkey := false; q_fmt := false; q_metanl := false; q_clear := false; q_lead := true; q_comment_cont := false |}.
 Definition w_lead_cfg : config :=
   run all_off [OUpdate (Upd "sa" "k1" "a-word-that-is-longer-than-the-rest-of-the-line" None "s" []) true] (empty_config "cfg").
 
@@ -972,4 +972,15 @@ Lemma lead_witness :
   answer all_off w_lead_cfg (QReadBack 60 true) = AContent (Ok (view_content (c_view w_lead_cfg))) /\
   answer q_only_lead w_lead_cfg (QReadBack 60 true) =
   AContent (Ok [("sa", [("k1", " a-word-that-is-longer-than-the-rest-of-the-line", [])])]).
+Proof. split; vm_compute; reflexivity. Qed.
+
+Definition q_only_comment :=
+  {| q_stale := false; q_fbsect := false; q_mkey := false; q_fmt := false; q_metanl := false; q_clear := false; q_lead := false;
+     q_comment_cont := true |}.
+Definition w_comment_cfg : config :=
+  run all_off [OUpdate (Upd "sa" "k1" "aaaaaaaaaaaaaaaaaaaaaaaa #second more" None "s" []) true] (empty_config "cfg").
+
+Lemma comment_witness :
+  answer all_off w_comment_cfg (QReadBack 60 true) = AContent (Ok (view_content (c_view w_comment_cfg))) /\
+  answer q_only_comment w_comment_cfg (QReadBack 60 true) = AContent (Ok [("sa", [("k1", "aaaaaaaaaaaaaaaaaaaaaaaa", [])])]).
 Proof. split; vm_compute; reflexivity. Qed.
